@@ -225,3 +225,42 @@ package har
 //@   at call 2 of ReadAll before assert[text-post-data-is-the-body-without-chunk-framing; C16] !bodyFramed
 //@   at call 1 of ReadAll before assert[form-parser-reads-the-snapshot-not-the-forwarded-body] arg0 == br
 //@   at call 2 of ReadAll before assert[text-capture-reads-the-snapshot-not-the-forwarded-body] arg0 == br
+
+// ---------------------------------------------------------------------------------------------
+// C16: JSON forms. b64 / unb64 stand for base64.StdEncoding.EncodeToString / DecodeString (assumed inverse on
+// successful decoding); what encoding/json does with the intermediate struct is assumed to be faithful.
+//@ specfunc b64(t []byte) string
+//@ specfunc unb64(s string) []byte
+//@ extern func (*base64.Encoding).EncodeToString
+//@   ensures result == b64(src)
+//@ extern func (*base64.Encoding).DecodeString
+//@   ensures result1 == nil ==> result0 == unb64(s)
+//@ ghost var jsonIn interface{}
+//@ extern func json.Marshal
+//@   modifies jsonIn
+//@   ensures jsonIn == v
+//@ func (Content).MarshalJSON
+//@   serves C16
+//@   modifies jsonIn
+//@   ensures[unsupported-encoding-is-an-error] c.Encoding != "base64" && c.Encoding != "" ==> result1 != nil
+//@   at call 0 of Marshal before assert[binary-content-travels-as-base64-of-its-bytes] c.Encoding == "base64" ==> cj.Text == b64(c.Text)
+//@   at call 0 of Marshal before assert[size-type-and-encoding-kept] cj.Size == c.Size && cj.MimeType == c.MimeType && cj.Encoding == c.Encoding
+//@ func (*PostData).MarshalJSON
+//@   serves C16
+//@   requires p != nil
+//@   modifies jsonIn
+//@   at call 1 of Marshal before assert[non-utf8-post-data-travels-as-base64-with-the-encoding-marked] !utf8.ValidString(p.Text) &&
+//@        as(arg0, pdBinary).Encoding == "base64" && as(arg0, pdBinary).MimeType == p.MimeType && as(arg0, pdBinary).Params == p.Params
+//@   at call 0 of Marshal before assert[utf8-post-data-travels-as-text] utf8.ValidString(p.Text) && ref(arg0) == p
+//@ extern func json.Unmarshal
+//@   modifies contentJSON.*, pdBinary.*, PostData.*
+//@ func (*Content).UnmarshalJSON
+//@   serves C16
+//@   requires c != nil
+//@   modifies contentJSON.*, pdBinary.*, PostData.*, c.Size, c.MimeType, c.Text, c.Encoding
+//@   noframe
+//@   at return all before assert[fields-restored-and-base64-text-decoded] result == nil ==> c.Size == cj.Size && c.MimeType == cj.MimeType && c.Encoding == cj.Encoding &&
+//@        (cj.Encoding == "base64" ==> c.Text == unb64(cj.Text))
+//@   ensures[unsupported-encoding-is-an-error] result == nil ==> c.Encoding == "base64" || c.Encoding == ""
+// (Round trip of binary content follows from the two contracts above given unb64(b64(t)) == t and a faithful
+// encoding/json on the intermediate struct; that composition is not stated as an obligation.)
